@@ -1407,6 +1407,10 @@ def main_c17(tier, seed):
                     sig = dict(engine="layout", target=m["tgt"], clause=clause, route=route)
                     run.violation(sig, "%s via %s: [%s] %s" % (m["tgt"], route, clause, msg), dict(case=case, idx=r["idx"], route=route, extra=extra))
             run.notes["eval_count_agrees_with_spec"] = dict(agree=agree, disagree=disagree)
+            # sessions of the command line in one directory (spec/PotableFS.tla): a failed tabulation leaves the named file empty
+            # whatever it held, refused runs and queries leave the directory alone
+            from engines import potfs
+            potfs.check(run, tier, seed, clause_engine="layout")
             run.rule = ("cases = models of the fault configurations x every failing evaluation position k (API routes: k = 1..N measured; potable routes: "
                         "every function slot x first/middle/last grid index); non-trivial = model with >= 2 failing positions; distinct by model")
     except tlc.TLCError as e:
